@@ -10,7 +10,7 @@ THEOREMS = ["Parmcb.C03." + t for t in ["c03_join_assoc", "c03_join_ident", "c03
             "c03_parity_no_conflict", "c03_search_no_conflict"]] + \
            ["Parmcb.runFrom_independent", "Parmcb.runFrom_spans", "Parmcb.runFrom_weight", "Parmcb.runFrom_circuits",
             "Parmcb.C02.c03_signed_tbb_end_to_end", "Parmcb.C02.c03_fvs_trees_tbb_end_to_end", "Parmcb.C02.c03_iso_trees_tbb_end_to_end",
-            "Parmcb.C05.c03_approx_signed_tbb_end_to_end", "Parmcb.C05.c03_approx_fvs_trees_tbb_end_to_end", "Parmcb.C05.c03_approx_iso_trees_tbb_end_to_end"]
+            "Parmcb.C05.c03_approx_signed_tbb_end_to_end", "Parmcb.C05.c03_approx_fvs_trees_tbb_end_to_end", "Parmcb.C05.c03_approx_iso_trees_tbb_end_to_end", "Parmcb.C02.c03_signed_tbb_heap_end_to_end"]
 EXACT = ["signed_tbb", "fvs_tbb", "iso_tbb"]
 
 def run(tier, replay=None):
